@@ -1615,6 +1615,11 @@ def ser_const(chk, program, P, marker, rule='SER-CONST'):
             chk.check(accepts and not wrong_len, rule, 'length::client-vs-decode_usb', file=D, line=dec.lineno, expected=f"the reader lets through {P}-byte packets only",
                       found='ok' if accepts and not wrong_len else {'accepts_client_length': accepts, 'also_accepts_lengths': wrong_len})
             return
+    # neither writer nor reader could be interpreted, or the client's own marker / length were not read: the spelling-bound reading below may
+    # confirm, it cannot alarm
+    from .rules_reasm import _ConfirmOnly as _CO
+    real_ = chk
+    chk = _CO(real_, {rule})
     dec = program.fn('decoder', 'NMEA2000Decoder.decode_usb')
     D = 'nmea2000/decoder.py'
     pname = [a.arg for a in dec.args.args][1]
@@ -1642,6 +1647,8 @@ def ser_const(chk, program, P, marker, rule='SER-CONST'):
                 first = (bytes(vals), n.lineno)
     chk.check(first is not None and first[0] == marker, rule, 'marker::client-vs-encode_usb', file='nmea2000/encoder.py', line=first[1] if first else enc.lineno,
               expected=marker.hex() if isinstance(marker, bytes) else marker, found=first[0].hex() if first else None)
+    if chk.unrecognised:
+        real_.unknown(rule, 'marker / length', 'writer, reader or client constants not interpretable and not of the recognised spelling: ' + ', '.join(chk.unrecognised)[:200], 'nmea2000/decoder.py', dec.lineno)
 
 def csum_dom(chk, program, rule='CSUM-DOM'):
     """in decode_usb the checksum comparison dominates the call to _decode.  Decided on the interpreted reader (wire.usb_reader_semantics:
